@@ -1,6 +1,7 @@
 import Cinco.Props.C11
 import Cinco.Field.Chain
 import Cinco.Generated.Registration
+import Cinco.Generated.LoadValidateShape
 /-
   C11 (continuation) — *every* validator registered on a field was run and passed.
   The field-level statement of C11 (`validate_ok_means`, `load_ok_validated`) speaks of "the field's validator"; with several
@@ -126,5 +127,19 @@ example : Ran demo ["pass", "again"] (.int 1) (.int 1) := (chain_ok_iff_ran demo
 
 /-- /repo's `support.validator` composes a new registration with the validator already on the field (read off the source on every run) -/
 theorem source_chains_registrations : Generated.validatorRegistration = "chain" := by decide
+
+/-- **the code order the model of the load / validation path follows is the code order of /repo** (control skeletons of
+    `Config.load_tree`, `Config.validate`, `Schema._validate`, `Schema._validate_field`, `Field.validate`, regenerated from
+    `cincoconfig/core.py` on every run): a tree entry of a field bound to a non-empty variable is skipped, every other entry is decoded
+    (errors wrapped) and stored, then the whole configuration is validated; the walk returns at once when the feature flag is off,
+    skips include / virtual / method fields, validates every other field and nested configuration, then runs every schema validator,
+    converting ANY exception into the library's error and — in collecting mode — into a list entry; a field's validation stops at
+    `None` (raising when required) and otherwise runs `_validate` and then the registered validator -/
+theorem load_validate_code_order : Generated.loadValidateShape =
+    [("Config.load_tree", ["loop[tree.items()]", "_get_field", "if[isinstance(field, Field)]", "if[isinstance(field.env, str) and field.env and os.environ.get(field.env)]", "continue", "end", "try", "to_python", "except:ValidationError", "raise", "except:Exception", "raise:ValidationError", "end", "end", "_set_value", "end", "if[validate]", "validate", "end"]),
+     ("Config.validate", ["_validate"]),
+     ("Schema._validate", ["if[not self._is_feature_enabled(config)]", "return", "end", "let[ignore_types=(IncludeFieldMixin, VirtualFieldMixin, InstanceMethodFieldMixin)]", "loop[self._fields.values()]", "if[isinstance(field, ignore_types)]", "continue", "end", "try", "_validate_field", "except:ValidationError", "if[not collect_errors]", "raise", "end", "append", "except:Exception", "if[not collect_errors]", "raise:exc", "end", "append", "end", "end", "loop[self._validators]", "try", "validator", "except:ValidationError", "if[not collect_errors]", "raise", "end", "append", "except:Exception", "if[not collect_errors]", "raise:exc", "end", "append", "end", "end"]),
+     ("Schema._validate_field", ["__getval__", "if[isinstance(field, Field)]", "validate", "else", "if[isinstance(val, Config)]", "validate", "end", "end"]),
+     ("Field.validate", ["if[self.required and value is None]", "raise:ValueError", "end", "if[value is None]", "return", "end", "_validate", "if[self.validator]", "validator", "end"])] := by decide
 
 end Cinco.C11b
